@@ -3977,3 +3977,28 @@ package decimal128
 //@ call Decimal.Uint32#1: T = x
 //@ ensures ok && y == x
 //@ props C10
+
+// CmpAbs is antisymmetric and transitive, and agrees with Cmp of the absolute values (C04).
+//@ func verifCmpAbsOrder
+//@ returns (xy, yx, yz, xz, ab)
+//@ logical Vx real, Vy real, Vz real
+//@ requires !special(x) ==> Vx >= 0 && rs(Vx, bexp(x)) == coef(x)
+//@ requires !special(y) ==> Vy >= 0 && rs(Vy, bexp(y)) == coef(y)
+//@ requires !special(z) ==> Vz >= 0 && rs(Vz, bexp(z)) == coef(z)
+//@ call Decimal.CmpAbs#1: Vd = Vx
+//@ call Decimal.CmpAbs#1: Vo = Vy
+//@ call Decimal.CmpAbs#2: Vd = Vy
+//@ call Decimal.CmpAbs#2: Vo = Vx
+//@ call Decimal.CmpAbs#3: Vd = Vy
+//@ call Decimal.CmpAbs#3: Vo = Vz
+//@ call Decimal.CmpAbs#4: Vd = Vx
+//@ call Decimal.CmpAbs#4: Vo = Vz
+//@ call Decimal.Cmp#1: Vd = Vx
+//@ call Decimal.Cmp#1: Vo = Vy
+//@ ensures xy != 0 - 2 ==> yx == 0 - xy
+//@ ensures xy == 0 - 2 ==> yx == 0 - 2
+//@ ensures (xy == 0 - 1 || xy == 0) && (yz == 0 - 1 || yz == 0) ==> (xz == 0 - 1 || xz == 0)
+//@ ensures xy == 0 - 1 && (yz == 0 - 1 || yz == 0) ==> xz == 0 - 1
+//@ ensures xy == 0 && yz == 0 ==> xz == 0
+//@ ensures ab == xy
+//@ props C04
